@@ -18,6 +18,7 @@ import ast
 import re
 from typing import Dict, List,  Any, Optional
 
+from engine.srcmatch import U
 from engine.forms import ABS, SEP_TERMINATED, FormEnv
 from engine.model import AnalysisError, Program, dotted, walk_no_nested
 
@@ -49,7 +50,7 @@ def run(ctx: Any, prog: Program) -> None:
         if not defs or depth > 6:
             return name
         d = defs[-1]
-        out = ast.unparse(d.value)
+        out = U(d.value)
         for x in sorted({n.id for n in ast.walk(d.value) if isinstance(n, ast.Name)}, key=len, reverse=True):
             if any(a.targets[0].id == x and a.lineno <= d.lineno for a in assigns) and not (x == name and not [a for a in assigns if a.targets[0].id == name and a.lineno < d.lineno]):
                 out = re.sub(r'\b' + re.escape(x) + r'\b', '(' + expanded(x, d.lineno if x != name else d.lineno, depth + 1) + ')', out)
@@ -68,7 +69,7 @@ def run(ctx: Any, prog: Program) -> None:
             subj = calls_[0].func.value if calls_ else None
         base = next((x.id for x in ast.walk(subj) if isinstance(x, ast.Name)), None) if subj is not None else None
         if base is None:
-            ctx.shape('C18.S5', False, pk, g_, f'subject of the escape test `{ast.unparse(t_)[:60]}` not recognised', func='unify_path', text='unify_path escape test')
+            ctx.shape('C18.S5', False, pk, g_, f'subject of the escape test `{U(t_)[:60]}` not recognised', func='unify_path', text='unify_path escape test')
         else:
             text = expanded(base, g_.lineno)
             ctx.shape('C18.S5', 'normpath' in text and prm in text, pk, g_, f'the tested value derives from os.path.normpath of the argument (it is `{text[:80]}`)', func='unify_path', text='unify_path normalisation')
@@ -76,15 +77,15 @@ def run(ctx: Any, prog: Program) -> None:
             ctx.check('C18.S5', after_conv, pk, g_, f'the escape test looks at `{text[:80]}`, i.e. before backslashes are turned into slashes: os.path.normpath does not treat a backslash as a separator on POSIX, so '
                       '`a\\..\\..\\x` reaches the test uncollapsed', func='unify_path', text='escape test after slash conversion')
             substring = isinstance(t_, ast.Compare) and len(t_.ops) == 1 and isinstance(t_.ops[0], ast.In) and isinstance(t_.left, ast.Constant) and t_.left.value in ('../', '..', '/..') and isinstance(t_.comparators[0], ast.Name)
-            component = isinstance(t_, ast.Compare) and len(t_.ops) == 1 and isinstance(t_.ops[0], ast.In) and isinstance(t_.left, ast.Constant) and t_.left.value == '..' and 'split' in ast.unparse(t_.comparators[0])
+            component = isinstance(t_, ast.Compare) and len(t_.ops) == 1 and isinstance(t_.ops[0], ast.In) and isinstance(t_.left, ast.Constant) and t_.left.value == '..' and 'split' in U(t_.comparators[0])
             prefix_only = any(isinstance(c, ast.Call) and isinstance(c.func, ast.Attribute) and c.func.attr == 'startswith' for c in ast.walk(t_)) and not substring and not component
             if substring or component:
                 ctx.check('C18.S5', True, pk, g_, 'every remaining `..` component is refused', func='unify_path', text='escape test covers inner components')
             elif prefix_only:
-                ctx.check('C18.S5', False, pk, g_, f'unify_path only refuses names that START with `../` (`{ast.unparse(t_)[:60]}`): on POSIX normpath leaves backslash-spelled `..` components in place, and after the slash '
+                ctx.check('C18.S5', False, pk, g_, f'unify_path only refuses names that START with `../` (`{U(t_)[:60]}`): on POSIX normpath leaves backslash-spelled `..` components in place, and after the slash '
                           'conversion `cfg\\..\\..\\..\\x` is the accepted name `cfg/../../../x`', func='unify_path', text='escape test covers inner components')
             else:
-                ctx.shape('C18.S5', False, pk, g_, f'escape test `{ast.unparse(t_)[:60]}` is not an enumerated form', func='unify_path', text='escape test covers inner components')
+                ctx.shape('C18.S5', False, pk, g_, f'escape test `{U(t_)[:60]}` is not an enumerated form', func='unify_path', text='escape test covers inner components')
     rp = raw.get('_resolve_path')
     if rp is None:
         raise AnalysisError('RawFileSystem._resolve_path not found')
@@ -131,9 +132,9 @@ def run(ctx: Any, prog: Program) -> None:
         def visit_Name(self, node: ast.Name) -> ast.AST:
             if isinstance(node.ctx, ast.Load) and counts.get(node.id) == 1 and node.id not in ('abs_path',) and not isinstance(single[node.id], ast.Call) or \
                     (isinstance(node.ctx, ast.Load) and counts.get(node.id) == 1 and node.id not in ('abs_path',) and isinstance(single[node.id], ast.Call) and dotted(single[node.id].func) != 'os.path.abspath'):
-                return self.visit(ast.parse(ast.unparse(single[node.id]), mode='eval').body)
+                return self.visit(ast.parse(U(single[node.id]), mode='eval').body)
             return node
-    tests_ = [_Inline().visit(ast.parse(ast.unparse(i_.test), mode='eval').body) for i_ in enclosing]
+    tests_ = [_Inline().visit(ast.parse(U(i_.test), mode='eval').body) for i_ in enclosing]
     test = tests_[0] if len(tests_) == 1 else ast.BoolOp(op=ast.And(), values=tests_)
     ast.fix_missing_locations(test)
     guards = [enclosing[-1]]
@@ -144,7 +145,7 @@ def run(ctx: Any, prog: Program) -> None:
             arg = n.args[0]
             form = env.form(arg)
             d = dotted(arg)
-            root_like = d == 'self.path' or (isinstance(arg, ast.Call) and 'self.path' in ast.unparse(arg))
+            root_like = d == 'self.path' or (isinstance(arg, ast.Call) and 'self.path' in U(arg))
             if not root_like and d and d.startswith('self.') and d.count('.') == 1:
                 # a prefix kept on the instance: its form is that of every value stored into the attribute, all of which must be
                 # computed in __init__ from the stored (absolute) root
@@ -154,7 +155,7 @@ def run(ctx: Any, prog: Program) -> None:
                 if not stores_:
                     continue
                 in_init = all(mn == '__init__' for mn, _ in stores_)
-                from_root = all('self.path' in ast.unparse(a_.value) for _, a_ in stores_)
+                from_root = all('self.path' in U(a_.value) for _, a_ in stores_)
                 ctx.shape('C18.S1', in_init and from_root, fs, stores_[0][1], f'`{d}` (used as containment prefix) is computed once in __init__ from the stored root', func='RawFileSystem.__init__', text='cached containment prefix')
                 if not (in_init and from_root):
                     continue
@@ -166,12 +167,12 @@ def run(ctx: Any, prog: Program) -> None:
                 continue
             if SEP_TERMINATED in form:
                 # the root itself (no trailing separator) must be accepted separately
-                eq = any(isinstance(m, ast.Compare) and isinstance(m.ops[0], (ast.Eq, ast.NotEq)) and 'self.path' in ast.unparse(m) for m in ast.walk(test))
+                eq = any(isinstance(m, ast.Compare) and isinstance(m.ops[0], (ast.Eq, ast.NotEq)) and 'self.path' in U(m) for m in ast.walk(test))
                 verdict = True if verdict is None else verdict
                 why = 'startswith(root + separator)' + (' with an equality test for the root itself' if eq else '')
             else:
                 verdict = False
-                why = f'`{ast.unparse(n)}` compares against `{ast.unparse(arg)[:110]}` which can be the bare root (abspath result, no trailing separator): "/a/root_other/x".startswith("/a/root") is true'
+                why = f'`{U(n)}` compares against `{U(arg)[:110]}` which can be the bare root (abspath result, no trailing separator): "/a/root_other/x".startswith("/a/root") is true'
         if isinstance(n, ast.Call) and dotted(n.func) in ('os.path.commonpath', 'os.path.commonprefix'):
             if dotted(n.func) == 'os.path.commonprefix':
                 verdict, why = False, 'os.path.commonprefix compares character-wise, not by path component'
@@ -180,15 +181,15 @@ def run(ctx: Any, prog: Program) -> None:
         if isinstance(n, ast.Call) and isinstance(n.func, ast.Attribute) and n.func.attr == 'is_relative_to':
             verdict, why = (True if verdict is None else verdict), 'Path.is_relative_to'
     # relpath idiom: the path expressed relative to the root climbs out iff it IS '..' or starts with '../'
-    rel_calls = [n for n in ast.walk(test) if isinstance(n, ast.Call) and dotted(n.func) == 'os.path.relpath' and len(n.args) == 2 and 'self.path' in ast.unparse(n.args[1])]
+    rel_calls = [n for n in ast.walk(test) if isinstance(n, ast.Call) and dotted(n.func) == 'os.path.relpath' and len(n.args) == 2 and 'self.path' in U(n.args[1])]
     if rel_calls and verdict is None:
         PARDIR = ("os.pardir", "'..'")
         sw = [n for n in ast.walk(test) if isinstance(n, ast.Call) and isinstance(n.func, ast.Attribute) and n.func.attr == 'startswith' and n.args
               and any(isinstance(x, ast.Call) and dotted(x.func) == 'os.path.relpath' for x in ast.walk(n.func.value))]
         eqs = [n for n in ast.walk(test) if isinstance(n, ast.Compare) and len(n.ops) == 1 and isinstance(n.ops[0], (ast.Eq, ast.In)) and any(isinstance(x, ast.Call) and dotted(x.func) == 'os.path.relpath' for x in ast.walk(n.left))
-               and any(p_ in ast.unparse(n.comparators[0]) for p_ in PARDIR)]
+               and any(p_ in U(n.comparators[0]) for p_ in PARDIR)]
         for n in sw:
-            a = ast.unparse(n.args[0])
+            a = U(n.args[0])
             whole_component = a in ("os.pardir + os.sep", "'../'", "os.pardir + '/'", "'..' + os.sep")
             bare = a in PARDIR
             if bare:
@@ -198,20 +199,20 @@ def run(ctx: Any, prog: Program) -> None:
                     verdict, why = True, "relpath(...) == os.pardir or .startswith(os.pardir + os.sep)"
                 else:
                     verdict = False
-                    why = (f'`{ast.unparse(n)[:80]}` only refuses results that continue below the parent: the relative form of the parent directory itself is exactly ".." '
+                    why = (f'`{U(n)[:80]}` only refuses results that continue below the parent: the relative form of the parent directory itself is exactly ".." '
                            '(no separator), so walking ".." lists the files next to the root')
     if verdict is None:
-        raise AnalysisError(f'_resolve_path: containment test `{ast.unparse(test)}` is not one of the enumerated idioms')
-    ctx.check('C18.S1', verdict, fs, guards[0], f'containment test `{ast.unparse(test)[:120]}`: {why}', func='RawFileSystem._resolve_path', text='containment test')
+        raise AnalysisError(f'_resolve_path: containment test `{U(test)}` is not one of the enumerated idioms')
+    ctx.check('C18.S1', verdict, fs, guards[0], f'containment test `{U(test)[:120]}`: {why}', func='RawFileSystem._resolve_path', text='containment test')
     # the comparison is on the exact spelling: on a case-sensitive file system `Root` and `ROOT` are different directories, so a test on folded
     # text accepts the sibling (os.path.normcase is the platform's own notion and is fine)
     folds_ = [n for n in ast.walk(test) if isinstance(n, ast.Call) and isinstance(n.func, ast.Attribute) and n.func.attr in ('casefold', 'lower', 'upper') and not n.args]
-    ctx.check('C18.S1', not folds_, fs, guards[0], f'containment test `{ast.unparse(test)[:140]}` compares case-folded text (`{ast.unparse(folds_[0])[:50] if folds_ else ""}`): a sibling directory whose name differs from '
+    ctx.check('C18.S1', not folds_, fs, guards[0], f'containment test `{U(test)[:140]}` compares case-folded text (`{U(folds_[0])[:50] if folds_ else ""}`): a sibling directory whose name differs from '
               "the root's only in letter case passes it and is then opened under its real spelling", func='RawFileSystem._resolve_path', text='containment test on exact spelling')
     # ---- S3 ------------------------------------------------------------------------------------------------
     ok = all(isinstance(r.exc, ast.Call) and dotted(r.exc.func) == 'RootEscapeError' for r in raises) and bool(raises)
     ctx.check('C18.S3', ok, fs, raises[0] if raises else rp, '_resolve_path must raise RootEscapeError', func='RawFileSystem._resolve_path', text='raises RootEscapeError')
-    ctx.shape('C18.S3', 'self.constrain_path' in ast.unparse(test), fs, guards[0], 'the escape check must be active whenever constrain_path is set (and only then)', func='RawFileSystem._resolve_path', text='gated by constrain_path')
+    ctx.shape('C18.S3', 'self.constrain_path' in U(test), fs, guards[0], 'the escape check must be active whenever constrain_path is set (and only then)', func='RawFileSystem._resolve_path', text='gated by constrain_path')
     norm = [n for n in walk_no_nested(rp) if isinstance(n, ast.Assign) and isinstance(n.value, ast.Call) and dotted(n.value.func) in ('os.path.abspath', 'os.path.realpath')]
     if len(norm) == 1 and isinstance(norm[0].value.args[0], ast.Name) and counts.get(norm[0].value.args[0].id) == 1:
         joined_expr = single[norm[0].value.args[0].id]        # `joined = os.path.join(...)` then abspath(joined)
@@ -245,11 +246,11 @@ def run(ctx: Any, prog: Program) -> None:
             if isinstance(c, ast.Call) and dotted(c.func) in SINKS and c.args:
                 a = c.args[0]
                 ok = (isinstance(a, ast.Call) and dotted(a.func) == 'self._resolve_path') or (isinstance(a, ast.Name) and a.id in resolved)
-                ctx.check('C18.S2', ok, fs, c, f'`{ast.unparse(c)[:70]}` reaches the file system with a path that did not come from _resolve_path', func=f'RawFileSystem.{name}', text=f'{name}: {dotted(c.func)}')
+                ctx.check('C18.S2', ok, fs, c, f'`{U(c)[:70]}` reaches the file system with a path that did not come from _resolve_path', func=f'RawFileSystem.{name}', text=f'{name}: {dotted(c.func)}')
         # values derived from os.walk(resolved) stay inside the walked tree; joins of dirpath + file are inside
     for name in ('open_str', 'open_bin'):
         fn = raw[name]
-        src = ast.unparse(fn)
+        src = U(fn)
         ok = 'if isinstance(name, File):' in src and 'name = self._get_data(name)' in src
         ctx.shape('C18.S2', ok, fs, fn, 'a File argument must be unwrapped to its stored relative path and then resolved like any other name', func=f'RawFileSystem.{name}', text=f'{name}: File unwrapped then resolved')
     # ---- S4 ------------------------------------------------------------------------------------------------
